@@ -31,6 +31,9 @@ func (m RawMessage) MarshalNBT(w io.Writer) error {
 
 func (m *RawMessage) UnmarshalNBT(tagType byte, r DecoderReader) error {
 	if tagType == TagEnd {
+		// "no value": a message that held something before must not keep it (callers such as
+		// packet.NBTField treat ErrEND at the root as success)
+		m.Type, m.Data = TagEnd, m.Data[:0]
 		return ErrEND
 	}
 	buf := bytes.NewBuffer(m.Data[:0])
